@@ -227,6 +227,11 @@ def check_adapter(ctx):
                     base_list is not None and U(t.expand(
                         method_call(ev.node)[0])) == U(base_list):
                 args.append(U(ev.node.args[0]))
+            elif ev.kind == 'call' and method_call(ev.node, 'pop') and \
+                    not ev.node.args and base_list is not None and U(
+                        t.expand(method_call(ev.node)[0])) == U(
+                            base_list) and args:
+                args.pop()          # statement-level list.pop()
         kws = {k.arg: U(k.value) for k in e.keywords}
         # threshold condition
         conds = [c for c in p.conds if c.kind == 'test']
@@ -254,6 +259,21 @@ def check_adapter(ctx):
                ast.Eq: lambda a, b: a == b, ast.NotEq: lambda a, b: a != b}
         for c in conds:
             ce = t.expand(c.expr)
+            if isinstance(ce, ast.Compare) and len(ce.ops) == 1 and \
+                    isinstance(ce.comparators[0], ast.Call) and U(
+                        ce.comparators[0].func) == 'len' and len(
+                            ce.comparators[0].args) == 1:
+                # compared with the length of the argument list as written
+                # (before anything was appended to or popped off it)
+                lx = t.expand(ce.comparators[0].args[0])
+                if isinstance(lx, ast.Name) and isinstance(
+                        t.en.defs.get(lx.id) if hasattr(t, 'en') else None,
+                        (ast.List, ast.Tuple)):
+                    lx = t.en.defs[lx.id]
+                if isinstance(lx, (ast.List, ast.Tuple)) and not any(
+                        isinstance(x, ast.Starred) for x in lx.elts):
+                    ce = ast.Compare(left=ce.left, ops=ce.ops, comparators=[
+                        ast.Constant(value=len(lx.elts))])
             if isinstance(ce, ast.Compare) and len(ce.ops) == 1 and \
                     type(ce.ops[0]) in OPS and is_const(
                         ce.comparators[0]) and sized(ce.left) and \
